@@ -9,6 +9,9 @@ import C07, C09
 
 PROP = 'C15'
 CFG = 'asan'
+# blob page size 1 (exact size, under ASan), 8 (page arithmetic of blobClose/blobResize exercised on every size class) and the
+# shipped 1024: a wipe that skips the tail of the last page shows only when size + header meets a page boundary
+CFGS = {'quick': ['asan', 'pg8'], 'thorough': ['asan', 'pg8', 'rel']}
 SNAP = 1 << 18
 
 def needles(fname, case, res):
@@ -176,12 +179,16 @@ def cases_for(tier):
     return cs
 
 def sub(tier, what, out):
+    global CFG
+    CFG = what
     vf.need_env(CFG)
     cs = cases_for(tier)
     res = vf.pmap(run_monitored, cs, case_timeout=300)
     viol = []; nblocks = 0; nruns = 0; nneedles = 0; fns = set()
     for (f, c), r in zip(cs, res):
         rec = {'cfg': CFG, 'kind': 'wipe', 'fn': f, 'case': cat.enc_case(c)}
+        if isinstance(r, dict) and CFG != 'asan':
+            continue          # crashes are C07's / C09's business and are judged there under the sanitizer
         if isinstance(r, dict):
             k, m = C07.classify(r.get('stderr', '') or r.get('harness_error', '') or r.get('crash', ''))
             viol.append({'key': 'wipe:%s:%s' % (k, f), 'rec': rec, 'msg': '%s: %s [%s]' % (f, m, cat.short(c))}); continue
@@ -194,33 +201,39 @@ def sub(tier, what, out):
     return 0
 
 def run(tier):
-    chk = vf.Check(PROP, tier, level='fault_enumeration', deadline_s=1200 if tier == 'quick' else 7200)
-    fd, out = tempfile.mkstemp(prefix='c15', dir=os.path.join(vf.VERIF, 'build')); os.close(fd)
-    r = subprocess.run([sys.executable, os.path.join(vf.VERIF, 'vcheck'), PROP, '--tier', tier, '--sub', 'all', '--out', out],
-                       stdout=subprocess.PIPE, stderr=subprocess.STDOUT, text=True)
-    try:
-        d = json.load(open(out))
-    except Exception:
-        chk.violation('harness', {'cfg': CFG, 'kind': 'none'}, 'sub-exploration failed: ' + r.stdout[-800:])
-        return chk.finish('C15', '')
-    finally:
-        os.unlink(out)
-    for v in d['viol']:
-        chk.violation(v['key'], v['rec'], v['msg'])
-    chk.part('released_blocks', states=d['blocks'], transitions=d['runs'], traces_validated_against_impl=d['runs'], evaluations=d['runs'],
-             distinct_nontrivial=d['calls'], functions=len(d['fns']), needle_windows=d['needles'])
-    for f in d['fns']:
-        chk.outcome(f)
-    chk.sample({'fn': 'beltCBCEncr', 'exits': ['success', 'allocation 1/1 failed'], 'needles': ['key windows', 'expanded key windows']})
+    chk = vf.Check(PROP, tier, level='fault_enumeration', deadline_s=1800 if tier == 'quick' else 7200)
+    for cfg in CFGS[tier]:
+        fd, out = tempfile.mkstemp(prefix='c15', dir=os.path.join(vf.VERIF, 'build')); os.close(fd)
+        r = subprocess.run([sys.executable, os.path.join(vf.VERIF, 'vcheck'), PROP, '--tier', tier, '--sub', cfg, '--out', out],
+                           stdout=subprocess.PIPE, stderr=subprocess.STDOUT, text=True)
+        try:
+            d = json.load(open(out))
+        except Exception:
+            chk.violation('harness:' + cfg, {'cfg': cfg, 'kind': 'none'}, 'sub-exploration %s failed: %s' % (cfg, r.stdout[-800:]))
+            continue
+        finally:
+            os.unlink(out)
+        for v in d['viol']:
+            chk.violation(v['key'], v['rec'], v['msg'] + ' [cfg %s]' % cfg)
+        chk.part('released_blocks_' + cfg, states=d['blocks'], transitions=d['runs'], traces_validated_against_impl=d['runs'], evaluations=d['runs'],
+                 distinct_nontrivial=d['calls'], functions=len(d['fns']), needle_windows=d['needles'])
+        for f in d['fns']:
+            chk.outcome(f)
+    chk.sample({'fn': 'beltCBCEncr', 'exits': ['success', 'allocation 1/1 failed'], 'needles': ['key windows', 'expanded key windows'], 'blob page sizes': CFGS[tier]})
+    chk.sample({'differential': 'two executions forked from one process state, library allocations served from a private arena (identical addresses), secrets perturbed: released blocks must be identical except for octets that are part of the public output'})
     chk.assumptions += ['blocks are inspected at the moment they are passed to free()/realloc() (link-time --wrap); realloc always moves',
                         'needles: every 8-octet window (with > 3 distinct octet values) of each secret input, of the belt key schedule, of HMAC ipad/opad blocks and hashed long keys, '
-                        'and of module-specific derived secrets; constant keys (all-zero / all-ones) are skipped because they cannot be told from wiped memory']
-    return chk.finish('C15', 'every secret-taking high-level call of the quick corpora x {success exit, authentication-failure exit, each allocation-fault exit}: all blocks '
-                      'released during the call are snapshotted at release time and scanned for the needle windows; states = released blocks inspected')
+                        'and of module-specific derived secrets; constant keys (all-zero / all-ones) are skipped because they cannot be told from wiped memory',
+                        'differential oracle on the success exit only; both runs must return ERR_OK and release blocks of equal sizes, otherwise the pair is not compared',
+                        'blob page sizes 1 and 8 through the guarded hook BEE2_VERIF_BLOB_PAGE_SIZE, 1024 = the shipped value (thorough)']
+    return chk.finish('C15', 'every secret-taking high-level call of the quick corpora x {success exit, authentication-failure exit, each allocation-fault exit} x blob page sizes: all blocks '
+                      'released during the call are snapshotted at release time and scanned for the needle windows, and compared octet-wise between two runs that differ only in the secret; states = released blocks inspected')
 
 def replay(rec):
+    global CFG
     if rec.get('kind') != 'wipe':
         return None
+    CFG = rec.get('cfg', 'asan')
     r = vf.pmap(run_monitored, [(rec['fn'], cat.dec_case(rec['case']))], nproc=1)[0]
     if isinstance(r, dict):
         return C07.classify(r.get('stderr', '') or r.get('crash', ''))[1]
